@@ -5,7 +5,8 @@ mutually-initialising packages, under a seeded set of absent optional modules (f
 interpreter switches (configuration), followed by a probe that selects through Beautiful Soup and
 through soupsieve directly.  Oracles:
 
-  a-imports    every statement of the program succeeds (exit status 0, no exception)
+  a-imports    every statement of the program succeeds (exit status 0, no exception) and every submodule import form
+               hands out the module (package attribute is sys.modules[...]; names in __all__ exist)
   b-agree      BeautifulSoup(...).select & co. give what soupsieve.select & co. give, and succeed
   c-order      all runs with the same probe and the same available parsers give identical results,
                whichever import program preceded the probe
@@ -154,6 +155,10 @@ def run_job(job, timeout=120):
         if os.path.exists(rp):
             with open(rp) as f:
                 res = json.load(f)
+            # whatever reaches the process's own stdout/stderr (e.g. from an atexit hook, after the driver has
+            # restored the descriptors) is output too
+            res['process_stdout'] = (p.stdout or '')[-600:]
+            res['process_stderr'] = (p.stderr or '')[-600:]
         return res, p.returncode, (p.stderr or '')[-1500:]
     finally:
         shutil.rmtree(scratch, ignore_errors=True)
@@ -187,6 +192,10 @@ def judge(job, res, rc, stderr):
     for a, b in PAIRS:
         if pr.get(a) != pr.get(b):
             return {'oracle': 'b-agree', 'detail': f'{a} != {b}', 'left': pr.get(a), 'right': pr.get(b)}
+    if res.get('submodule_binding_errors'):
+        return {'oracle': 'a-imports', 'detail': 'a submodule import form does not hand out the module: the package '
+                                                 'attribute differs from sys.modules (or a name in __all__ is missing)',
+                'error': {'type': 'WrongBinding', 'bindings': res['submodule_binding_errors']}}
     pkg = os.path.join(env.REPO, 'soupsieve') + os.sep
     f = res['files'].get('soupsieve')
     if not f or not os.path.abspath(f).startswith(pkg):
@@ -194,6 +203,9 @@ def judge(job, res, rc, stderr):
     if res['stdout'] or res['stderr']:
         return {'oracle': 'd-silent', 'detail': 'output during import/probe', 'stdout': res['stdout'][:300],
                 'stderr': res['stderr'][:300]}
+    if res.get('process_stdout') or res.get('process_stderr'):
+        return {'oracle': 'd-silent', 'detail': 'output at interpreter exit', 'stdout': res.get('process_stdout', '')[:300],
+                'stderr': res.get('process_stderr', '')[:300]}
     if res.get('state_changed'):
         return {'oracle': 'd-silent', 'detail': 'importing changed process-wide interpreter state',
                 'state_changed': {k: [str(v[0])[:160], str(v[1])[:160]] for k, v in res['state_changed'].items()}}
